@@ -252,6 +252,11 @@ pub fn check_recovery(
     gets_match(&db, universe, &accept[mi]).map_err(|e| format!("after recovery: {e}"))?;
     let mut model = accept[mi].clone();
     if plan.dircheck {
+        // The scan above pinned a version while a compaction scheduled by the open may have run;
+        // files are reclaimed at the next flush/compaction (lazy by design), so give the database
+        // that one opportunity after everything has been released.
+        db.verif_wait_idle(Duration::from_secs(600));
+        db.compact_range(Some(RESERVED_LO)..Some(RESERVED_HI));
         db.verif_wait_idle(Duration::from_secs(600));
         dir_exact(&db, &img).map_err(|e| format!("after recovery and quiescence: {e}"))?;
     }
